@@ -132,6 +132,13 @@ func check(spec *ukit.Spec, tier string, res *ux.Result, only *replay) {
 		if same(got, c.Path) || (c.Alt != nil && same(got, c.Alt)) {
 			return
 		}
+		// A missing struct-mapped sub-object given by value is filled in from its own defaults (documented struct
+		// mapping, ledgered under C09), so what is reported missing may be a required field inside it: the path then
+		// runs through the removed element and on to that field - it still leads to the offending element.
+		if c.Kind == "missing required" && len(got) > len(c.Path) && same(got[:len(c.Path)], c.Path) {
+			res.Count("missing_required_reported_inside_the_missing_element", 1)
+			return
+		}
 		kind := "names another element"
 		if len(got) < len(c.Path) {
 			kind = "stops short of the element"
